@@ -2,6 +2,7 @@
   C11 â€” Variables are expanded with Ninja's scoping rules.
 -/
 import N2V.Model.Load
+import N2V.Lemmas.FileSpec
 namespace N2V.C11
 open N2V N2V.Eval N2V.Load
 
@@ -172,5 +173,23 @@ theorem later_binding_local (vars : StrMap) (k k2 : Bytes) (v : Bytes) (h : k2 â
 theorem include_is_copy_in_n2 (parent child : StrMap) : afterInclude false parent child = parent := rfl
 
 theorem include_extends_in_spec (parent child : StrMap) : afterInclude true parent child = child := rfl
+
+/-- **Top-down, at file level.**  For a manifest read as a sequence of statements
+    (`C10.manifest_read_as_written`): what the first statements do - the scope their bindings
+    build, the steps their `build` statements add, each with its variables evaluated in the scope as
+    of its own line - is a function of those statements alone; whatever is written after them
+    (a re-binding of the same name included) only continues from that state. -/
+theorem top_down_at_file_level (file : Bytes) (a b : List Parse.Item) (l : Loader) (vars : StrMap) :
+    applyItems file (a ++ b) l vars =
+      match runItems file a l vars with
+      | .error e => .error e
+      | .ok (l', vars') => applyItems file b l' vars' :=
+  applyItems_append file a b l vars
+
+/-- A top-level binding is evaluated once, in the scope of the lines before it. -/
+theorem binding_evaluated_where_written (file : Bytes) (name : Bytes) (val : EvalStr) (rest : List Parse.Item)
+    (l : Loader) (vars : StrMap) :
+    runItems file (.binding name val :: rest) l vars =
+      runItems file rest l (Eval.insert vars name (evaluate [envOfStr vars] val)) := rfl
 
 end N2V.C11
